@@ -23,7 +23,7 @@ ASSUMPTIONS = ['single-target text reports carry no label; labels are checked in
 
 V4 = ['192.0.2.7', '198.51.100.20', '10.1.2.3']
 V6 = [('2001:db8::7', '2001:0db8:0000:0000:0000:0000:0000:0007'), ('fd00::1:2', 'fd00:0:0:0:0:0:1:2'), ('::1', '0:0:0:0:0:0:0:1')]
-FAMOPTS = [[], [], ['-4'], ['-6'], ['-46'], ['-64'], ['-4', '-6'], ['-6', '-4']]
+FAMOPTS = [[], [], ['-4'], ['-6'], ['-46'], ['-64'], ['-4', '-6'], ['-6', '-4'], ['-4', '-4'], ['-66'], ['-6', '--ipv6'], ['--ipv4', '-4'], ['-4', '-6', '-4'], ['-646']]
 
 
 def cases(seed, tier):
@@ -79,7 +79,8 @@ def named(case):
 def fam_pref(case):
     seq = []
     for o in case['fam']:
-        for ch in o[1:]:
+        flags = {'--ipv4': '4', '--ipv6': '6'}.get(o, o[1:])
+        for ch in flags:
             if ch in '46' and int(ch) not in seq:
                 seq.append(int(ch))
     return seq
